@@ -42,8 +42,9 @@ impl Property for C13 {
     fn rule(&self) -> String {
         "generated histories in which rejected / no-op call shapes (create-existing, delete/append/truncate on \
          missing names, Past by 1 or many with empty and non-empty batches, retry of the last position, empty \
-         batch auto/explicit) are frequent; for every call the implementation itself rejects or acknowledges as a no-op (error variant, or last_position \
-         None): wal_bytes_written == 0, the hook trace of the call has no \
+         batch auto/explicit) are frequent; for every call whose SHAPE the statement lists (recognised by the reference model: missing queue, existing queue, \
+         past position, retry of the last position, empty batch) and whatever the implementation answers: reported \
+         wal_bytes_written == 0, the hook trace of the call has no \
          write/create/set_len/unlink/flush effect, the directory bytes are identical before and after, the \
          observable state is unchanged (so a later restart, which reads nothing but that directory, cannot see it either). evaluations = \
          rejected/no-op calls checked. non-trivial = such a call made while the WAL is non-empty and >= 1 queue \
@@ -98,17 +99,17 @@ impl Property for C13 {
             };
             let step = exec.step_concrete(cop)?;
             exec.usable_or_skip(&step)?;
-            // classification by what the implementation itself answered: a call it rejected, or acknowledged as a
-            // no-op, must leave no trace. (Whether it SHOULD have been rejected is C05's concern.)
-            let really_noop = step.real.outcome.is_noop();
-            if really_noop != is_noop {
-                // the model did not predict this answer, so no "before" snapshot exists / the case has diverged
-                return Err(CaseError::Skip("setup-diverges-from-model".to_string()));
+            // The call SHAPES of the statement (missing queue, existing queue, past position, retry of the last position,
+            // empty batch) are recognised by the reference model; such a call must change nothing, whatever the
+            // implementation answers (the answer itself is C05's concern). Every other call must conform to the model,
+            // otherwise later shapes cannot be recognised reliably and the case is skipped.
+            if !is_noop {
+                exec.conform_or_skip(&step)?;
             }
             if is_noop {
                 env.evals(1);
-                env.class(step.real.outcome.class());
-                let shape = format!("{}:{}", step.real.outcome.class(), match &step.cop {
+                env.class(step.expected.class());
+                let shape = format!("{}:{}", step.expected.class(), match &step.cop {
                     COp::Append { batch, pos, .. } => format!("batch{}-{}", batch.len().min(2), pos.is_some()),
                     _ => String::new(),
                 });
@@ -163,7 +164,7 @@ impl Property for C13 {
                 }
                 if wal_nonempty && !exec.model.queues.is_empty() {
                     env.nontrivial(hash64(&(shape.clone(), &exec.cops)));
-                    env.sample(|| json!({"noop_call": step.cop.short(), "outcome": step.real.outcome.class(),
+                    env.sample(|| json!({"noop_call": step.cop.short(), "shape": step.expected.class(),
                         "history_before": crate::case::ops_sample(&exec.cops[..exec.cops.len() - 1])}));
                 }
             } else if step.written > 0 {
